@@ -136,3 +136,17 @@ package kafka
 //@   loop 0 invariant -1 <= i && i < len(s)
 //@   loop 0 invariant forall a :: i < a && a < len(s) ==> s[a] > bmax
 //@   loop 0 decreases i + 1
+
+//@ property C03
+
+//@ func makeCommit
+//@   mode bv
+//@   ensures same(result.topic, msg.Topic) && result.partition == msg.Partition && result.offset == msg.Offset + 1
+
+//@ func makeCommits
+//@   ensures len(result) == len(msgs)
+//@   ensures forall k :: 0 <= k && k < len(msgs) ==> result[k].partition == msgs[k].Partition && result[k].offset == msgs[k].Offset + 1 && same(result[k].topic, msgs[k].Topic)
+//@   loop 0 invariant len(commits) == len(msgs) && fresh(commits) && -1 <= rangeindex && rangeindex < len(msgs)
+//@   loop 0 invariant forall k :: 0 <= k && k <= rangeindex ==> commits[k].partition == msgs[k].Partition && commits[k].offset == msgs[k].Offset + 1 && same(commits[k].topic, msgs[k].Topic)
+//@   loop 0 modifies elems(commits)
+//@   loop 0 decreases len(msgs) - rangeindex
